@@ -202,3 +202,19 @@ package keeper
 //@        ev_kind(traceAt(old(traceN()) + 2)) == 88 &&
 //@        ev_id(traceAt(old(traceN()))) == ev_id(traceAt(old(traceN()) + 1)) && ev_num(traceAt(old(traceN()))) == ev_num(traceAt(old(traceN()) + 1)) &&
 //@        ev_id(traceAt(old(traceN()) + 2)) == ev_id(traceAt(old(traceN())))
+
+// ---------------------------------------------------------------------------------------------
+// C06 (what consensus is told is the change that was applied; a key is added with every power >= 1): per change, an
+// unknown key with power >= 1 is stored and forwarded with that power (unless a hook refuses it), a known key is
+// forwarded with the requested power (removal = 0), and nothing is forwarded for an unknown key without power. (Only the
+// list handed to consensus is specified here: the store writes and hooks are treated as not touching it.)
+//@ func (Keeper).ApplyValidatorChanges
+//@   flag noframe
+//@   flag pure=ToConsAddr,GetExocoreValidator,Logger,NewExocoreValidator,ToSdkKey,ToTmProtoKey,GetOperatorAddressForChainIDAndConsAddr,ChainIDWithoutRevision,Hooks,AfterValidatorBonded,AfterValidatorRemoved,AfterValidatorCreated,DeleteExocoreValidator,SetExocoreValidator,SetValidatorUpdates
+//@ loop #1
+//@   invariant -1 <= rangeindex && rangeindex < len(changes)
+//@   step[C06.avc.new] !res_GetExocoreValidator_1 && changes[rangeindex].Power >= 1 ==>
+//@        res_NewExocoreValidator_1 != nil || (defined(res_AfterValidatorBonded_0) && (res_AfterValidatorBonded_0 != nil ||
+//@        (len(ret) == len(prev_ret) + 1 && ret[len(prev_ret)].Power == changes[rangeindex].Power)))
+//@   step[C06.avc.none] !res_GetExocoreValidator_1 && changes[rangeindex].Power < 1 ==> ret == prev_ret
+//@   step[C06.avc.power] ret == prev_ret || (len(ret) == len(prev_ret) + 1 && ret[len(prev_ret)].Power == changes[rangeindex].Power)
